@@ -14,6 +14,7 @@ declare -A props=(
   [packetat_checksum_restructured]="C02 C07 C03"
   [baudrate_cases_reordered]="C20 C15"
   [fixedpoint_restructured]="C05 C04"
+  [client_receive_reordered]="C03 C09 C10"
   [client_command_renamed]="C08 C14 C16"
   [latlon_decoder_renamed]="C04 C12 C03"
 )
